@@ -268,7 +268,16 @@ func obligBody(o *Oblig) string {
 		b.WriteString(e.SMT())
 		b.WriteByte('\n')
 	}
-	b.WriteString("(assert (not " + o.Goal.s + "))\n")
+	goalText := o.Goal.s
+	if os.Getenv("GCV_NOINST") == "" && (strings.Contains(goalText, "(forall ") || strings.Contains(goalText, "(exists ") || pcHasQuant(o.PC)) {
+		var extra []string
+		extra, goalText = instantiate(o.PC.Entries(), o.Goal)
+		for _, x := range extra {
+			b.WriteString(x)
+			b.WriteByte('\n')
+		}
+	}
+	b.WriteString("(assert (not " + goalText + "))\n")
 	return b.String()
 }
 
